@@ -6,14 +6,19 @@ by `spec_classes` (imported from /repo) and the Lean Impl model `SpecVerif.C06`
 list / dict / set edited as the property text says).
 
 A case is  {"attr": <attribute>, "holder": <class variant>, "steps": [...]}  where a step is
-  ["new", null]            fresh instance, attribute never assigned
+  ["new", null]            fresh instance, attribute never assigned (it shows MISSING, or the class default / the
+                           content its spec_property computes: `default_tokens`)
   ["new", [tok, ...]]      fresh instance constructed with that content (dict: "k=v")
   ["with", item, index, insert, kwK, kwA, if, inplace]
   ["update", voi, new, byidx, kwK, kwA, if, inplace]
   ["transform", voi, fn, byidx, fnK, fnA, if, inplace]
   ["without", voi, byidx, if, inplace]
-Tokens:  _ (MISSING / not passed) | i<int> | s<letters> | o0:<b>:<a> (Sp) | o1:<key>:<a> (KS);
+Tokens:  _ (MISSING / not passed) | i<int> | s<letters> | o0:<b>:<a> (Sp) | o1:<key>:<a> (KS) | o2:<key>:<a> (KI);
+a token may carry an identity label `@<label>`: the same labelled token twice after a `new` is the SAME object twice
+(shared elements; the very object of the container handed back as an argument);
 byidx in {_, t, f}; fn names index the transform pool (`FN`), shared with the Lean driver.
+Holders: H / HD / HS / HP keep the attribute in the instance `__dict__`; "<store>.<shape>" keep it behind a property,
+spec_property or Alias declared in the owning class or in a subclass of it (`holder_cls`).
 """
 import itertools
 
@@ -32,6 +37,8 @@ REQUIRED_THEOREMS = [
         "creates_when_missing", "creates_singleton", "key_promoted", "keywords_build_or_update",
         "klist_refines_list", "klist_by_key", "keysAgree_of_coh", "kset_add", "kset_by_key",
         "legacy_D7_violates", "legacy_without_missing_violates",
+        "alias_item_never_edits", "alias_deepcopy", "alias_list_refines", "alias_dict_refines", "alias_others_untouched",
+        "store_irrelevant", "store_read_write", "private_item_violates", "lift_own_dict_violates",
     )
 ]
 RULE = (
@@ -44,8 +51,16 @@ RULE = (
     "N = 2 (+ sampled 3) quick, N = 4 thorough (every content x every call, nothing sampled); then seeded streams: two-step "
     "same-key edits of keyed containers followed by re-addressing by key, and sequences of <=4 consecutive helper calls "
     "(+-_inplace, +-_if, a malformed quarter); KeyedList/KeyedSet states are compared with their key view (items()); "
+    "holders: the four plain ones and 6 stores (property, spec_property with setter, overridable spec_property computing a "
+    "default content, cached spec_property, Alias, pass-through Alias) x 5 places of the descriptor (declaring class, plain / spec "
+    "subclass, spec subclass of a plain subclass, plain subclass of a spec subclass), rotated over the chunks of 40 probes; "
+    "never-assigned = MISSING or the class default / computed content of the holder; "
+    "shared objects: every content of a List/Dict attribute of spec-class elements in which equal elements are ONE object "
+    "(all groupings up to length 3, three per longer content; quick: 2 per content) x the keyword / keyword-transform probes + the very object handed back as argument "
+    "+ a sample of the rest; sequences share objects between content and arguments half of the time; "
+    "besides the container the tie compares: receiver's container unchanged by a copying call, no argument object edited; "
     "a probe is non-trivial when the call changed the container or raised; "
-    "distinct = distinct (attribute, pre-content, call) triples"
+    "distinct = distinct (attribute, store kind, pre-content, call) tuples"
 )
 # thorough enumerates its whole single-call scope (see RULE); the sequences of edits are seeded samples
 EXHAUSTIVE = {"quick": False, "thorough": True}
@@ -54,10 +69,12 @@ ASSUMPTIONS = [
     "transforms / item preparers are pure total functions (pool: id, inc, zero, bad (wrong type), rekey, const; abs as item preparer)",
     "an ill-typed new element or key is outside C06 (C03): the oracle does not judge such calls, the model tie still compares them",
     "KeyedList additionally enforces unique keys (C13): the oracle expects an exception when the plain edit would duplicate a key",
-    "copy-on-write / receiver unchanged is C01/C02, not re-checked here; results are read off the returned instance",
+    "copy-on-write is C01/C02: results are read off the returned instance; the tie (not the oracle) also flags a receiver whose container changed under a copying call and an argument object that was edited",
+    "callbacks never edit the object they are handed (the model gives a callback's result an identity of its own)",
 ]
 TRUSTED_EXTRA = [
     "Model/C13.lean KeyedList model (tied separately by the C13 run) reused as the sequence container of KeyedList attributes",
+    "Model/C06H.lean: heap of objects / deep copy with memo / mutate_value's copy decisions / getattr-setattr of an instance (hand-written, tied by the runs: plain-list and dict attributes run on it)",
 ]
 OPEN_STATEMENTS = []
 
@@ -71,7 +88,47 @@ ITEM = {
     "ints": "int", "strs": "str", "specs": "spec", "klist2": "kspec", "pints": "int", "kspecs": "kspec",
     "dmap": "int", "smap": "spec", "kmap": "kspec", "iset": "int", "sset": "str", "ksets": "kspec",
 }
-HOLDERS = ["H", "HD", "HS", "HP"]
+BASE_HOLDERS = ["H", "HD", "HS", "HP", "HR"]
+# Holders whose attributes are NOT plain `__dict__` entries: "<store>.<shape>".
+#   store: how the class of the instance resolves the attribute name
+#     prop    builtin property, getter/setter on the backing slot `_b_<attr>`
+#     sprop   spec_property with an explicit setter (same backing slot)
+#     over    overridable spec_property, not cached: the getter computes the default content on every read
+#     cached  spec_property(cache=True): the computed default content is stored on first read
+#     alias   Alias(<backing slot>): reads the override (or the target), writes a local override
+#     aliasp  Alias(<backing slot>, passthrough=True): reads and writes the target
+#   shape: where the descriptor lives relative to the spec class that declares (and owns the helpers of) the attribute
+#     same       in the declaring class itself (the Attr is masked)
+#     plainsub   undecorated subclass of H          specsub   @spec_class subclass of H
+#     deep       @spec_class subclass of an undecorated subclass of H
+#     deepplain  undecorated subclass of a @spec_class subclass of H
+STORES = ["prop", "sprop", "over", "cached", "alias", "aliasp"]
+SHAPES = ["same", "plainsub", "specsub", "deep", "deepplain"]
+MASKED_HOLDERS = [f"{st}.{sh}" for st in STORES for sh in SHAPES]
+HOLDERS = BASE_HOLDERS + MASKED_HOLDERS
+# what `getattr` shows on an instance whose attribute was never assigned: None = MISSING, else this content
+HD_DEFAULT = {"ints": ["i1"], "strs": ["sa"], "dmap": ["sa=i1"], "iset": ["i1"], "sset": ["sa"], "pints": ["i1"]}
+COMPUTED_DEFAULT = {
+    "ints": ["i1", "i0"], "strs": ["sa", "s"], "dmap": ["sa=i1", "s=i0"], "iset": ["i1", "i0"], "sset": ["sa", "s"],
+    "specs": ["o0::0", "o0:a:1"], "smap": ["sa=o0::0", "s=o0:a:1"], "kspecs": ["o1:a:0", "o1::1"], "ksets": ["o1:a:0", "o1::1"],
+    "kmap": ["sa=o1::0", "s=o1:a:1"], "klist2": ["o1::0", "o1:a:1"], "pints": ["i1", "i0"],
+    "kispecs": ["o2:1:0", "o2:0:1"], "kilist": ["o2:0:0", "o2:1:1"], "kimap": ["sa=o2:0:0", "s=o2:1:1"], "kisets": ["o2:1:0", "o2:0:1"],
+}
+
+
+def default_tokens(holder, attr):
+    """Content of the attribute on a bare instance of the holder (None: the attribute is MISSING)."""
+    if holder in ("HD", "HR"):
+        return HD_DEFAULT.get(attr, [])
+    if holder.split(".")[0] in ("over", "cached"):
+        return COMPUTED_DEFAULT[attr]
+    return None
+
+
+def store_of(holder):
+    """store kind of the Lean `Inst` model"""
+    st = holder.split(".")[0]
+    return {"prop": "slot", "sprop": "slot", "alias": "slot", "aliasp": "slot", "over": "computed", "cached": "cached"}.get(st, "dict")
 # int-keyed spec-class elements (falsy bare key 0)
 FAMILY.update(kispecs="klist", kilist="list", kimap="dict", kisets="kset")
 ITEM.update(kispecs="ikspec", kilist="ikspec", kimap="ikspec", kisets="ikspec")
@@ -156,9 +213,70 @@ def setup():
     class HP(H):  # plain subclass
         pass
 
-    _cls.update(Sp=Sp, KS=KS, KI=KI, H=H, HD=HD, HS=HS, HP=HP)
+    # spec subclass that declares every attribute again, with the (mutable) defaults of HD: the helpers it inherits
+    # were generated for H's declarations, the instance is described by its own
+    HR = spec_class(type("HR", (H,), {"__annotations__": dict(H.__annotations__), **{a: HD.__dict__[a] for a in ATTRS if a in HD.__dict__}}))
+
+    _cls.clear()
+    _cls.update(Sp=Sp, KS=KS, KI=KI, H=H, HD=HD, HS=HS, HP=HP, HR=HR)
     for a in ATTRS:
         _singular[a] = H.__spec_class__.attrs[a].item_name
+
+
+def _descriptor(store, name):
+    from spec_classes import spec_property
+    from spec_classes.types import Alias
+
+    back = "_b_" + name
+    if store in ("prop", "sprop"):
+
+        def fget(self):
+            return getattr(self, back)  # AttributeError while never assigned -> the attribute is MISSING
+
+        def fset(self, v):
+            setattr(self, back, v)
+
+        return property(fget, fset) if store == "prop" else spec_property(fget, fset)
+    if store in ("over", "cached"):
+
+        def compute(self):
+            return content_of(name, COMPUTED_DEFAULT[name])  # a new container of new elements on every call
+
+        return spec_property(compute, cache=(store == "cached"))
+    if store == "alias":
+        return Alias(back)
+    if store == "aliasp":
+        return Alias(back, passthrough=True)
+    raise ValueError(store)
+
+
+def holder_cls(name):
+    """The holder class `name` (built on first use; `_cls` is emptied by setup())."""
+    if name in _cls:
+        return _cls[name]
+    from spec_classes import spec_class
+
+    store, shape = name.split(".")
+    H = _cls["H"]
+    ns = {a: _descriptor(store, a) for a in ATTRS}
+    cname = f"X_{store}_{shape}"
+    if shape == "same":
+        ns["__annotations__"] = dict(H.__annotations__)
+        ns["_prepare_pint"] = H.__dict__["_prepare_pint"]
+        cls = spec_class(bootstrap=True)(type(cname, (), ns))
+    elif shape == "plainsub":
+        cls = type(cname, (H,), ns)
+    elif shape == "specsub":
+        cls = spec_class(type(cname, (H,), ns))
+    elif shape == "deep":
+        cls = spec_class(type(cname, (type(cname + "_mid", (H,), {}),), ns))
+    elif shape == "deepplain":
+        mid = spec_class(type(cname + "_mid", (H,), {"__annotations__": {"extra": int}, "extra": 0}))
+        cls = type(cname, (mid,), ns)
+    else:
+        raise ValueError(name)
+    _cls[name] = cls
+    return cls
 
 
 # ---------------------------------------------------------------------------
@@ -166,7 +284,18 @@ def setup():
 # ---------------------------------------------------------------------------
 
 
+_labelled = {}  # identity label -> object (emptied at every `new` step): `o0:b:1@3` twice is the SAME object twice
+
+
+def unlabel(tok):
+    return tok.split("@")[0]
+
+
 def val(tok):
+    if "@" in tok:
+        if tok not in _labelled:
+            _labelled[tok] = val(unlabel(tok))
+        return _labelled[tok]
     if tok == "_":
         return _MISSING
     if tok[0] == "i":
@@ -299,14 +428,22 @@ def content_of(attr, toks):
 
 
 def new_obj(case, init):
-    H = _cls[case.get("holder", "H")]
+    H = holder_cls(case.get("holder", "H"))
     if init is None:
         return H()
     return H(**{case["attr"]: content_of(case["attr"], init)})
 
 
-def call_real(attr, obj, step):
-    """Performs one helper call on `obj`; returns the resulting instance."""
+def call_real(attr, obj, step, args=None):
+    """Performs one helper call on `obj`; returns the resulting instance. `args` collects (token, object) of the
+    element / address objects handed to the call."""
+
+    def rv(t):  # (records what was handed over)
+        v = val(t)
+        if args is not None and t != "_":
+            args.append((t, v))
+        return v
+
     name = step[0]
     fam = FAMILY[attr]
     sing = _singular[attr]
@@ -322,13 +459,13 @@ def call_real(attr, obj, step):
         kw["_if"] = bool(if_)
         if fam in ("list", "klist"):
             if index != "_":
-                kw["_index"] = val(index)
+                kw["_index"] = rv(index)
             if insert:
                 kw["_insert"] = True
-            return m(val(item), **kw)
+            return m(rv(item), **kw)
         if fam == "dict":
-            return m(val(index), val(item), **kw)
-        return m(val(item), **kw)
+            return m(rv(index), rv(item), **kw)
+        return m(rv(item), **kw)
     if name == "update":
         _, voi, new, bi, kwk, kwa, if_, inplace = step
         if kwk != "_":
@@ -339,7 +476,7 @@ def call_real(attr, obj, step):
         kw["_if"] = bool(if_)
         if fam in ("list", "klist") and bi != "_":
             kw["_by_index"] = bi == "t"
-        return m(val(voi), val(new), **kw)
+        return m(rv(voi), rv(new), **kw)
     if name == "transform":
         _, voi, f, bi, fk, fa, if_, inplace = step
         if fk != "_":
@@ -350,18 +487,18 @@ def call_real(attr, obj, step):
         kw["_if"] = bool(if_)
         if fam in ("list", "klist") and bi != "_":
             kw["_by_index"] = bi == "t"
-        return m(val(voi), fn(f), **kw)
+        return m(rv(voi), fn(f), **kw)
     if name == "without":
         _, voi, bi, if_, inplace = step
         kw["_inplace"] = bool(inplace)
         kw["_if"] = bool(if_)
         if fam in ("list", "klist") and bi != "_":
             kw["_by_index"] = bi == "t"
-        return m(val(voi), **kw)
+        return m(rv(voi), **kw)
     raise ValueError(step)
 
 
-_memo = [None, None]
+_memo = [None, None, None]
 
 
 def run_real(case):
@@ -373,52 +510,74 @@ def run_real(case):
 
     def fresh():
         try:
-            return _cls[case.get("holder", "H")]()
+            return holder_cls(case.get("holder", "H"))()
         except Exception:  # noqa: BLE001  (a broken library may fail to build even the bare instance)
             return None
 
+    _labelled.clear()
     obj = fresh()
+    _memo[2] = show_state(attr, obj)
+    post = _memo[2]
     for step in case["steps"]:
-        pre = show_state(attr, obj)
+        pre = post  # (what the attribute showed after the previous step)
         err = None
+        side = ""
         try:
             if step[0] == "new":
+                _labelled.clear()
                 obj = fresh()  # a failed construction leaves a fresh instance
                 obj = new_obj(case, step[1])
             else:
-                obj = call_real(attr, obj, step)
+                args = []
+                receiver = obj
+                try:
+                    obj = call_real(attr, obj, step, args)
+                finally:
+                    # what the model takes for granted (it is a function of the container's content): a copying call
+                    # leaves the receiver's container as it was, no call edits an object that was handed to it
+                    if not step[-1] and obj is not receiver and show_state(attr, receiver) != pre:
+                        side += " ;; receiver-changed " + show_state(attr, receiver)
+                    changed = [t for t, v in args if tok(v) != unlabel(t)]
+                    if changed:
+                        side += " ;; argument-changed " + ",".join(changed)
         except Exception as e:  # noqa: BLE001
             err = err_name(e)
-        out.append((step, pre, err, show_state(attr, obj)))
+        post = show_state(attr, obj)
+        out.append((step, pre, err, post, side))
     _memo[0], _memo[1] = case, out
     return out
 
 
 def real_lines(case):
-    out = ["ok ;; missing"]
-    for step, pre, err, post in run_real(case):
-        out.append(("ok" if err is None else "err " + err) + " ;; " + post)
+    steps = run_real(case)
+    out = ["ok ;; " + _memo[2]]
+    for step, pre, err, post, side in steps:
+        out.append(("ok" if err is None else "err " + err) + " ;; " + post + side)
     return out
 
 
 def model_lines(case):
     attr = case["attr"]
-    out = [f"attr {attr}"]
+    holder = case.get("holder", "H")
+    # `attr <name> <store> <content of a bare instance>`: a new instance of the holder (Lean: `Inst`)
+    dflt = default_tokens(holder, attr)
+    bare = " ".join([f"attr {attr} {store_of(holder)}"] + (["missing"] if dflt is None else ["default"] + dflt))
+    out = [bare]
     for step in case["steps"]:
         if step[0] == "new":
-            out.append(f"attr {attr}" if step[1] is None else " ".join(["init"] + list(step[1])))
+            out.append(bare if step[1] is None else " ".join(["init"] + list(step[1])))
         elif step[0] == "with":
-            _, item, index, insert, kwk, kwa, if_, _ip = step
-            out.append(f"with {item} {index} {int(insert)} {kwk} {kwa} {int(if_)}")
+            _, item, index, insert, kwk, kwa, if_, ip = step
+            out.append(f"with {item} {index} {int(insert)} {kwk} {kwa} {int(if_)} {int(ip)}")
         elif step[0] == "update":
-            _, voi, new, bi, kwk, kwa, if_, _ip = step
-            out.append(f"update {voi} {new} {bi} {kwk} {kwa} {int(if_)}")
+            _, voi, new, bi, kwk, kwa, if_, ip = step
+            out.append(f"update {voi} {new} {bi} {kwk} {kwa} {int(if_)} {int(ip)}")
         elif step[0] == "transform":
-            _, voi, f, bi, fk, fa, if_, _ip = step
-            out.append(f"transform {voi} {f} {bi} {fk} {fa} {int(if_)}")
+            _, voi, f, bi, fk, fa, if_, ip = step
+            out.append(f"transform {voi} {f} {bi} {fk} {fa} {int(if_)} {int(ip)}")
         elif step[0] == "without":
-            _, voi, bi, if_, _ip = step
-            out.append(f"without {voi} {bi} {int(if_)}")
+            _, voi, bi, if_, ip = step
+            out.append(f"without {voi} {bi} {int(if_)} {int(ip)}")
         else:
             raise ValueError(step)
     return out
@@ -443,6 +602,7 @@ class Expect(Exception):
 
 
 def pv(t):
+    t = unlabel(t)  # the plain container holds values; which of them are one object is not its business
     if t[0] == "i":
         return int(t[1:])
     if t[0] == "s":
@@ -701,7 +861,7 @@ def empty(attr):
 def oracle(case):
     attr = case["attr"]
     viol = []
-    for n, (step, pre, err, post) in enumerate(run_real(case)):
+    for n, (step, pre, err, post, _side) in enumerate(run_real(case)):
         if step[0] == "new":
             if err is not None or post == "no-instance":
                 viol.append(f"step#{n} {step}: constructing the instance raised {err}")
@@ -833,7 +993,76 @@ def elems_of(attr, init):
         return []
     if FAMILY[attr] == "dict":
         return [t.split("=")[0] for t in init]
-    return list(dict.fromkeys(init))
+    return list(dict.fromkeys(unlabel(t) for t in init))
+
+
+ALIASABLE = ["specs", "smap", "klist2", "kmap", "kilist", "kimap"]  # list / dict attributes of spec-class elements
+
+
+def _partitions(n):
+    """restricted growth strings of length n (= all ways to split n positions into groups)"""
+    out = [[0]]
+    for _ in range(n - 1):
+        out = [p + [g] for p in out for g in range(max(p) + 2)]
+    return out
+
+
+def alias_variants(attr, init):
+    """Every way to make EQUAL elements of the content one and the same object (at least two positions shared):
+    token `t` -> `t@<group>`. Plain containers only: a KeyedList / KeyedSet cannot hold an object twice."""
+    if attr not in ALIASABLE or not init:
+        return []
+    vals = [t.split("=")[-1] for t in init]
+    groups = {}
+    for i, v in enumerate(vals):
+        groups.setdefault(v, []).append(i)
+    groups = [g for g in groups.values() if len(g) > 1]
+    if not groups:
+        return []
+    out = []
+    choices = [[p for p in _partitions(len(g))] for g in groups]
+    for combo in itertools.product(*choices):
+        if all(len(set(p)) == len(p) for p in combo):
+            continue  # nothing shared
+        toks = list(init)
+        for gi, (g, p) in enumerate(zip(groups, combo)):
+            for pos, lab in zip(g, p):
+                if p.count(lab) > 1:
+                    toks[pos] = f"{init[pos]}@{gi}{lab}"
+        out.append(toks)
+    return out
+
+
+def aliased_ops(attr, init, rng):
+    """The probes of an aliased content: every call that edits an element through keywords / keyword transforms (the
+    calls that could reach a shared object), calls handing over the very object that is in the container, and a
+    sample of the rest."""
+    ops = single_ops(attr, unl(init))
+    keep = [op for op in ops if op[0] != "without" and (op[4] != "_" or op[5] != "_")]
+    rest = [op for op in ops if op not in keep]
+    keep += rng.sample(rest, min(len(rest), max(20, len(rest) // 8)))
+    if FAMILY[attr] == "list":
+        for t in dict.fromkeys(init):
+            if "@" in t:
+                kk, ka = kw_variants(attr)[1]
+                keep.append(["update", t, "_", "_", kk, ka, 1, 0])
+                keep.append(["update", t, "_", "f", "_", "i7", 1, 0])
+                keep.append(["transform", t, "_", "_", "_", "inc", 1, 0])
+                keep.append(["with", t, "_", 0, "_", "i7", 1, 0])
+                keep.append(["with", t, "i0", 0, "_", "i7", 1, 0])
+                keep.append(["without", t, "_", 1, 0])
+    else:
+        k0 = init[0].split("=")[0]
+        for t in dict.fromkeys(x.split("=")[1] for x in init):
+            if "@" in t:
+                keep.append(["with", t, k0, 0, "_", "i7", 1, 0])
+                keep.append(["with", t, "sz", 0, "_", "i7", 1, 0])
+                keep.append(["update", k0, t, "_", "_", "i7", 1, 0])
+    return keep
+
+
+def unl(init):
+    return None if init is None else [unlabel(t) for t in init]
 
 
 def single_ops(attr, init):
@@ -971,14 +1200,51 @@ def _no_key_keyword_on_foreign_object(attr, op):
     return op
 
 
+def holder_for(attr, holder):
+    """Reading through a spec_property getter re-prepares the stored container (`spec_property.__get__` ->
+    `prepare_attr_value` -> `_prepare_items`: `c[i] = c[i]` for every position), which renumbers the key index of a
+    KeyedList to list order on every read: content-neutral, but the tie compares that order (docs/C06.md, not
+    modelled). KeyedList attributes use the builtin property instead."""
+    if FAMILY[attr] == "klist" and holder.startswith("sprop."):
+        return "prop." + holder.split(".")[1]
+    return holder
+
+
+def pick_holder(rng, attr):
+    """a third of the cases on the four plain holders, the rest on the descriptor-backed ones"""
+    return rng.choice(BASE_HOLDERS) if rng.random() < 0.34 else holder_for(attr, rng.choice(MASKED_HOLDERS))
+
+
+def share_objects(attr, steps, rng):
+    """Aliasing by history: equal element tokens of the case become ONE object (content and arguments alike), so that
+    e.g. two in-place `with_<s>(x)` calls store the same object twice."""
+    if attr not in ALIASABLE:
+        return steps
+    lab = lambda t: t + "@s" if isinstance(t, str) and t.startswith("o") and "@" not in t and rng.random() < 0.8 else t  # noqa: E731
+    out = []
+    for st in steps:
+        st = list(st)
+        if st[0] == "new":
+            if st[1]:
+                st[1] = [(x.split("=")[0] + "=" + lab(x.split("=")[1])) if "=" in x else lab(x) for x in st[1]]
+        elif st[0] in ("with", "update"):
+            st[1], st[2] = lab(st[1]), lab(st[2])
+        else:
+            st[1] = lab(st[1])
+        out.append(st)
+    return out
+
+
 def random_sequence(attr, rng, maxlen=4, malformed=False):
     cs = contents(attr, 3)
     init = rng.choice(cs)
-    holder = rng.choice(HOLDERS if init is not None else ["H", "HS", "HP"])
-    n = len(init or [])
+    holder = pick_holder(rng, attr)
+    n = len(init or default_tokens(holder, attr) or [])
     steps = [["new", init]]
     for _ in range(rng.randint(1, maxlen)):
         steps.append(_no_key_keyword_on_foreign_object(attr, random_op(attr, rng, n + 2, malformed)))
+    if attr in ALIASABLE and rng.random() < 0.5:
+        steps = share_objects(attr, steps, rng)
     return {"attr": attr, "holder": holder, "steps": steps}
 
 
@@ -1051,7 +1317,7 @@ def keyed_two_step(attr, rng):
             ["with", "i0" if ik else "s", addr, 0, "_", "_", 1, ip()],
         ])
     third = random_op(attr, rng, n + 1)
-    return {"attr": attr, "holder": rng.choice(HOLDERS), "steps": [["new", init], first, second, third],
+    return {"attr": attr, "holder": pick_holder(rng, attr), "steps": [["new", init], first, second, third],
             "origin": "keyed-two-step"}
 
 
@@ -1068,20 +1334,45 @@ def gen_cases(tier, rng):
         return
     # quick: every content of length <= 2 x every probe, plus a sample of length-3 contents with a third of
     # the probes; thorough: every content of length <= 4 (lists; keyed lists/sets/dicts: <= 3, their pools
-    # have three keys) x every probe, nothing sampled
+    # have three keys) x every probe, nothing sampled. The int-keyed shapes repeat the str-keyed ones (they are there
+    # for the falsy bare key 0): quick samples their length-2 contents.
+    # Contents in which equal elements are ONE object (`alias_variants`) follow with the probes of `aliased_ops`.
+    # Holders: every chunk of 40 probes runs on the next holder of a shuffled rotation (every descriptor-backed holder
+    # once, a plain one after every second of them).
     full = 2 if tier == "quick" else 4
     nseq = 1500 if tier == "quick" else 40000
     for attr in ATTRS:
+        rot = []
+        for i, h in enumerate(rng.sample(MASKED_HOLDERS, len(MASKED_HOLDERS))):
+            rot.append(h)
+            if i % 2:
+                rot.append(BASE_HOLDERS[(i // 2) % len(BASE_HOLDERS)])
+        turn = itertools.cycle(rot)
         cs = contents(attr, full)
         sampled = []
         if tier == "quick":
             more = [c for c in contents(attr, 3) if c is not None and len(c) == 3]
             sampled = rng.sample(more, min(5, len(more)))
+            if ITEM[attr] == "ikspec" or attr in ("pints", "klist2"):  # (pints repeats ints but for the item preparer, klist2 = specs + the key promotion of kspecs / kmap)
+                two = [c for c in cs if c is not None and len(c) == 2]
+                drop = rng.sample(two, len(two) - max(2, len(two) // 3))
+                cs = [c for c in cs if c not in drop]
+                sampled = sampled[:3]
+        plan = []
         for init in cs + sampled:
             ops = single_ops(attr, init)
             if init in sampled:
                 ops = rng.sample(ops, max(30, len(ops) // 3))
-            holder = rng.choice(HOLDERS if init is not None else ["H", "HS", "HP"])
+            plan.append((init, ops, "exhaustive-single"))
+        for init in cs + sampled:
+            variants = alias_variants(attr, init)
+            if tier == "quick" and len(variants) > 2:
+                variants = rng.sample(variants, 2)
+            elif init and len(init) >= 4 and len(variants) > 3:
+                variants = rng.sample(variants, 3)  # thorough: all groupings up to length 3, three per longer content
+            for av in variants:
+                plan.append((av, aliased_ops(attr, av, rng), "exhaustive-aliased"))
+        for init, ops, origin in plan:
             for lo in range(0, len(ops), 40):
                 steps = []
                 for op in ops[lo : lo + 40]:
@@ -1089,7 +1380,7 @@ def gen_cases(tier, rng):
                     op[-1] = int(rng.random() < 0.3)  # _inplace
                     steps.append(["new", init])
                     steps.append(op)
-                yield {"attr": attr, "holder": holder, "steps": steps, "origin": "exhaustive-single"}
+                yield {"attr": attr, "holder": holder_for(attr, next(turn)), "steps": steps, "origin": origin}
     for i in range(nseq // 3):
         yield keyed_two_step(["kspecs", "ksets", "kispecs", "kmap", "klist2", "kisets", "kspecs", "kimap", "kilist"][i % 9], rng)
     for i in range(nseq):
@@ -1115,23 +1406,34 @@ def shrink(case, at=None):
 
 def nontrivial(case, real):
     keys = []
-    for (step, pre, err, post) in run_real(case):
+    for (step, pre, err, post, _side) in run_real(case):
         if step[0] == "new":
             continue
         if err is not None or pre != post:
-            keys.append((case["attr"], pre, tuple(step[:-1])))
+            keys.append((case["attr"], store_of(case.get("holder", "H")), pre, tuple(step[:-1])))
     return keys
+
+
+def pre_missing(holder, attr):
+    return default_tokens(holder, attr) is None
 
 
 def tags(case, real):
     attr = case["attr"]
-    t = [f"attr:{attr}", f"holder:{case.get('holder', 'H')}", f"origin:{case.get('origin', 'corpus')}"]
-    for (step, pre, err, post) in run_real(case):
+    holder = case.get("holder", "H")
+    t = [f"attr:{attr}", f"holder:{holder}", f"origin:{case.get('origin', 'corpus')}"]
+    if "." in holder:
+        t += [f"store:{holder.split('.')[0]}", f"shape:{holder.split('.')[1]}"]
+    for (step, pre, err, post, _side) in run_real(case):
         if step[0] == "new":
-            t.append("container:" + ("missing" if step[1] is None else f"len{len(step[1])}"))
+            t.append("container:" + (("missing" if pre_missing(holder, attr) else "default") if step[1] is None else f"len{len(step[1])}"))
+            if step[1] and any("@" in x for x in step[1]):
+                t.append("content:shared-objects")
             continue
         name = step[0]
         t.append(f"op:{name}")
+        if any(isinstance(x, str) and "@" in x for x in step[1:3]):
+            t.append("argument:shared-object")
         if err:
             t.append(f"err:{err}")
         if FAMILY[attr] in ("list", "klist"):
@@ -1150,7 +1452,7 @@ def tags(case, real):
 
 
 MANIFEST_ENTRY = {
-    "level_text": "Lean 4 proof that the Impl model of the element helpers (CollectionAttrMutator.prepare_item/_mutate_collection, the _extractor/_inserter/add_item/transform_item/remove_item of the sequence, mapping and set mutators, the element level of mutate_value, and the generated with_/update_/transform_/without_<singular> helpers) refines the plain Python container operation for arbitrary contents and arguments: append / replace at a normalised index / clamped insert / first-of-equal-values / delete by value, index or key / dict assign and delete keeping insertion order / set add, replace, remove; every call is a single-position edit leaving all other elements and their order untouched; IndexError, KeyError or ValueError is raised exactly when the plain operation misses; a missing container is created first; a bare key (str or int, also '' and 0) is promoted to a keyed element; keywords build or update the element; KeyedList/KeyedSet attributes go through the same theorems with key addressing equal to a linear scan; the pre-fix behaviours (falsy set element, without_ on a missing container) are kept as legacy counter-models with decided witnesses. The model is tied to /repo on every run by executing every helper x addressing mode on every small container content (and seeded sequences of consecutive edits) on the real generated helpers and on the model, comparing exception class and resulting container (for KeyedList/KeyedSet also the key view) after each call, and by an independent plain list/dict/set oracle written from the property text.",
-    "level_note": "Trusted: Lean kernel; axioms propext/Classical.choice/Quot.sound only; the hand-written model (Model/C06.lean, reusing Model/C13.lean for KeyedList) and the correspondence harness (12 attribute types x 4 holder class variants); transforms and item preparers pure; element equality structural. The theorems are about the model; the per-run correspondence is what ties them to the code. Ill-typed elements/keys (C03) and copy-on-write (C01/C02) are compared by the tie but not judged by the C06 oracle.",
+    "level_text": "Lean 4 proof that the Impl model of the element helpers (CollectionAttrMutator.prepare_item/_mutate_collection, the _extractor/_inserter/add_item/transform_item/remove_item of the sequence, mapping and set mutators, the element level of mutate_value, and the generated with_/update_/transform_/without_<singular> helpers) refines the plain Python container operation for arbitrary contents and arguments: append / replace at a normalised index / clamped insert / first-of-equal-values / delete by value, index or key / dict assign and delete keeping insertion order / set add, replace, remove; every call is a single-position edit leaving all other elements and their order untouched; IndexError, KeyError or ValueError is raised exactly when the plain operation misses; a missing container is created first; a bare key (str or int, also '' and 0) is promoted to a keyed element; keywords build or update the element; KeyedList/KeyedSet attributes go through the same theorems with key addressing equal to a linear scan; the pre-fix behaviours (falsy set element, without_ on a missing container) are kept as legacy counter-models with decided witnesses. Below the content abstraction: for list and dict attributes whose elements are objects with identity (any sharing of one object between positions / keys, deep copy with memo, _inplace or not) the helper on references refines the helper on contents and mutate_value never edits an object that existed before the call (counter-model: editing the items of the freshly copied container in place changes every position that shares the object); and for every way an instance keeps the attribute (own __dict__, property/alias with a backing slot, computed or cached spec_property) the helper lifted with getattr and stored with setattr is the helper on what the attribute shows (counter-model: lifting from __dict__ unless the declaring class masks the attribute). The model is tied to /repo on every run by executing every helper x addressing mode on every small container content (and seeded sequences of consecutive edits) on the real generated helpers and on the model, comparing exception class and resulting container (for KeyedList/KeyedSet also the key view) after each call, and by an independent plain list/dict/set oracle written from the property text.",
+    "level_note": "Trusted: Lean kernel; axioms propext/Classical.choice/Quot.sound only; the hand-written model (Model/C06.lean, reusing Model/C13.lean for KeyedList) and the correspondence harness (16 attribute types x 34 holder class variants, contents with shared element objects); transforms and item preparers pure; element equality structural. The theorems are about the model; the per-run correspondence is what ties them to the code. Ill-typed elements/keys (C03) and copy-on-write (C01/C02) are compared by the tie but not judged by the C06 oracle.",
     "technique": "Lean 4 refinement proof (Impl helpers -> plain container operations) over a hand-written model; differential correspondence against the real generated helpers; plain-container oracle",
 }
